@@ -93,6 +93,7 @@ var e2eBackend struct {
 	body     []byte
 	status   int
 	respBody []byte
+	trailer  bool      // the backend response announces and sends a trailer
 	log      []e2eSeen // every forwarded request, in arrival order at the backend
 }
 
@@ -119,8 +120,14 @@ func e2eRoundTrip(t *http.Transport, r *http.Request) (*http.Response, error) {
 	h.Set("Content-Type", "application/x-verif") // otherwise the h2 server sniffs the (symbolic) body
 	h.Add("Set-Cookie", "a=1")
 	h.Add("Set-Cookie", "b=2")
-	return &http.Response{StatusCode: e2eBackend.status, ProtoMajor: 1, ProtoMinor: 1, Header: h,
-		Body: io.NopCloser(bytes.NewReader(e2eBackend.respBody)), ContentLength: int64(len(e2eBackend.respBody)), Request: r}, nil
+	resp := &http.Response{StatusCode: e2eBackend.status, ProtoMajor: 1, ProtoMinor: 1, Header: h,
+		Body: io.NopCloser(bytes.NewReader(e2eBackend.respBody)), ContentLength: int64(len(e2eBackend.respBody)), Request: r}
+	if e2eBackend.trailer {
+		resp.ContentLength = -1
+		resp.TransferEncoding = []string{"chunked"}
+		resp.Trailer = http.Header{"X-Checksum": {"c0ffee"}}
+	}
+	return resp, nil
 }
 
 type e2eHash struct{ data []byte }
